@@ -3,6 +3,7 @@ package checks
 import (
 	"bytes"
 	"fmt"
+	"github.com/zmap/zcrypto/x509"
 	"math/big"
 	"math/rand"
 	"strings"
@@ -85,6 +86,7 @@ func init() {
 			nSeeds = len(W.Objs)
 			return nil
 		},
+		Solo: c09Solo,
 		Once: func(c *mon.Ctx) {
 			// pre-issuance: same TBS, two signers
 			g := lint.GlobalRegistry()
@@ -131,61 +133,8 @@ func init() {
 				c.R.Count("self_issued_skipped", 1)
 				return
 			}
-			dc, err := der.ParseCert(o.DER)
-			if err != nil {
-				return
-			}
-			cur, _, _ := sigBytes(dc)
-			if len(cur) == 0 {
-				c.R.Count("no_signature_bits", 1)
-				return
-			}
-			g := lint.GlobalRegistry()
-			day := today()
-			rs, pv, _ := o.Lint(g)
-			c.R.Count("evaluations", 1)
-			if pv != nil || rs == nil {
-				return
-			}
-			base := mon.SnapOf(rs)
-			rng := c.Rng(i, 4)
-			donor := W.Objs[W.ByKind[corpus.Cert][rng.Intn(len(W.ByKind[corpus.Cert]))]].Cert.Signature
-			compared := 0
-			for vname, vb := range c09Variants(rng, cur, donor) {
-				if bytes.Equal(vb, cur) {
-					continue
-				}
-				d2 := dc.Clone()
-				_, _, set := sigBytes(d2)
-				set(vb)
-				enc := d2.Encode()
-				if len(enc) != len(o.DER) {
-					// the seed's own encoding is not what the tree re-encodes to (non-minimal lengths inside the mutant): not comparable
-					c.R.Count("variant_not_comparable", 1)
-					continue
-				}
-				o2, _ := mon.ParseObj(corpus.Cert, o.Name+"#sig="+vname, enc)
-				if o2 == nil {
-					c.R.Count("variant_rejected", 1)
-					continue
-				}
-				if !bytes.Equal(o2.Cert.RawTBSCertificate, o.Cert.RawTBSCertificate) {
-					c.R.Count("variant_not_comparable", 1)
-					continue
-				}
-				rs2, pv2, _ := o2.Lint(g)
-				c.R.Count("evaluations", 1)
-				if pv2 != nil || rs2 == nil {
-					c.V("variant-panics|"+vname, "linting panicked only after replacing the signature by "+vname, "", map[string][]byte{"orig": o.DER, "variant": enc}, nil)
-					continue
-				}
-				compared++
-				c.R.Distinct("variants_compared", vname)
-				for _, d := range dropClock(day, mon.Diff(base, mon.SnapOf(rs2), false, false)) {
-					name := strings.SplitN(d, ":", 2)[0]
-					c.V("sig-dependent|"+name, fmt.Sprintf("lint %s changes when only the signature bits change (%s): %s (input %s~%s)", name, vname, clipS(d, 300), o.Name, desc), name, map[string][]byte{"orig": o.DER, "variant": enc}, map[string]any{"variant": vname})
-				}
-			}
+			compared := c09Judge(c, o, desc, lint.GlobalRegistry(), c.Rng(i, 4))
+			cur := o.Cert.Signature
 			if compared > 0 {
 				c.CountDistinct(o.DER)
 				c.R.Distinct("sig_algs", o.Cert.SignatureAlgorithm.String())
@@ -196,6 +145,11 @@ func init() {
 		},
 		Finish: func(c *mon.Ctx, r *mon.Report, ev *mon.Evidence) []string {
 			var gates []string
+			ev.Coverage["recovered_panic_reports_compared"] = r.Counters["recovered_panic_reports_compared"]
+			ev.Coverage["probe_objects_compared"] = r.Counters["probe_objects_compared"]
+			if r.Counters["recovered_panic_reports_compared"] < 50 || r.Counters["probe_objects_compared"] < 50 {
+				gates = append(gates, "probe-lint part (own process) compared too little")
+			}
 			ev.Coverage["signature_algorithms_seen"] = r.SetKeys("sig_algs")
 			ev.Coverage["variants_compared"] = r.Sets["variants_compared"]
 			if r.Counters["preissuance_pairs"] < 4 {
@@ -255,4 +209,166 @@ func c09OwnKey(k int) (*mon.Obj, string) {
 	s.SelfSign = key // really signed with the key it carries
 	o, _ := mon.ParseObj(corpus.Cert, fmt.Sprintf("gen/ownkey/t%d-aki%d-alt%d", tmpl, akiMode, alt), s.DER())
 	return o, "signed by its own key, not self-issued"
+}
+
+// c09Judge lints o and its same-length signature variants with reg and requires identical status and details for
+// every lint; returns the number of variants compared.
+func c09Judge(c *mon.Ctx, o *mon.Obj, desc string, g lint.Registry, rng *rand.Rand) int {
+	dc, err := der.ParseCert(o.DER)
+	if err != nil {
+		return 0
+	}
+	cur, _, _ := sigBytes(dc)
+	if len(cur) == 0 {
+		c.R.Count("no_signature_bits", 1)
+		return 0
+	}
+	day := today()
+	rs, pv, _ := o.Lint(g)
+	c.R.Count("evaluations", 1)
+	if pv != nil || rs == nil {
+		return 0
+	}
+	base := mon.SnapOf(rs)
+	donor := W.Objs[W.ByKind[corpus.Cert][rng.Intn(len(W.ByKind[corpus.Cert]))]].Cert.Signature
+	compared := 0
+	for vname, vb := range c09Variants(rng, cur, donor) {
+		if bytes.Equal(vb, cur) {
+			continue
+		}
+		d2 := dc.Clone()
+		_, _, set := sigBytes(d2)
+		set(vb)
+		enc := d2.Encode()
+		if len(enc) != len(o.DER) {
+			// the seed's own encoding is not what the tree re-encodes to (non-minimal lengths inside the mutant): not comparable
+			c.R.Count("variant_not_comparable", 1)
+			continue
+		}
+		o2, _ := mon.ParseObj(corpus.Cert, o.Name+"#sig="+vname, enc)
+		if o2 == nil {
+			c.R.Count("variant_rejected", 1)
+			continue
+		}
+		if !bytes.Equal(o2.Cert.RawTBSCertificate, o.Cert.RawTBSCertificate) {
+			c.R.Count("variant_not_comparable", 1)
+			continue
+		}
+		rs2, pv2, _ := o2.Lint(g)
+		c.R.Count("evaluations", 1)
+		if pv2 != nil || rs2 == nil {
+			c.V("variant-panics|"+vname, "linting panicked only after replacing the signature by "+vname, "", map[string][]byte{"orig": o.DER, "variant": enc}, nil)
+			continue
+		}
+		compared++
+		c.R.Distinct("variants_compared", vname)
+		for _, d := range dropClock(day, mon.Diff(base, mon.SnapOf(rs2), false, false)) {
+			name := strings.SplitN(d, ":", 2)[0]
+			c.V("sig-dependent|"+name, fmt.Sprintf("lint %s changes when only the signature bits change (%s): %s (input %s~%s)", name, vname, clipS(d, 300), o.Name, desc), name, map[string][]byte{"orig": o.DER, "variant": enc}, map[string]any{"variant": vname})
+		}
+	}
+	return compared
+}
+
+// ---- probe lints (own process) ----
+//
+// Whatever the FRAMEWORK adds around a rule body must not depend on the signature either - in particular its report
+// of a recovered panic, which no lint of a healthy tree produces. Probe lints registered through the public API (one
+// whose rule body panics, one that reports details taken from the to-be-signed part, one plain) are run through the
+// global registry, a registry filtered to them, and by calling CertificateLint.Execute and the deprecated
+// Lint.Execute directly, on non-self-issued seeds and their signature variants.
+
+type c09Probe struct{ mode int }
+
+func (c09Probe) CheckApplies(*x509.Certificate) bool { return true }
+func (p c09Probe) Execute(c *x509.Certificate) *lint.LintResult {
+	switch p.mode {
+	case 0:
+		var names []string
+		_ = names[len(c.DNSNames)+3] // index out of range: the framework's recovery has to report it
+		return nil
+	case 1:
+		return &lint.LintResult{Status: lint.Error, Details: fmt.Sprintf("serial %x, %d extensions, algorithm %s", c.SerialNumber, len(c.Extensions), c.SignatureAlgorithm)}
+	}
+	return &lint.LintResult{Status: lint.Pass}
+}
+
+func c09Solo(c *mon.Ctx) {
+	g := lint.GlobalRegistry()
+	names := []string{"e_verif_c09_panics", "e_verif_c09_details", "e_verif_c09_plain"}
+	for m, n := range names {
+		m := m
+		lint.RegisterCertificateLint(&lint.CertificateLint{LintMetadata: lint.LintMetadata{Name: n, Description: "verif probe", Citation: "verif", Source: lint.Community},
+			Lint: func() lint.CertificateLintInterface { return c09Probe{m} }})
+	}
+	only, err := g.Filter(lint.FilterOptions{IncludeNames: names})
+	if err != nil {
+		c.R.Inconcl("probe lints cannot be selected: " + err.Error())
+		return
+	}
+	rng := c.Rng(-9, 1)
+	n := 0
+	for _, idx := range W.ByKind[corpus.Cert] {
+		o := W.Objs[idx]
+		if bytes.Equal(o.Cert.RawIssuer, o.Cert.RawSubject) || idx%3 != int(uint64(c.Seed)%3) {
+			continue
+		}
+		if n++; n > c.Pick(150, 1200) {
+			break
+		}
+		reg := only
+		if n%4 == 0 {
+			reg = g
+		}
+		if k := c09Judge(c, o, "probe lints", reg, rng); k > 0 {
+			c.R.Count("probe_objects_compared", 1)
+		}
+		// direct execution of the lint values, both API generations
+		dc, err := der.ParseCert(o.DER)
+		if err != nil {
+			continue
+		}
+		cur, _, set := sigBytes(dc)
+		if len(cur) == 0 {
+			continue
+		}
+		flipped := append([]byte{}, cur...)
+		for i := range flipped {
+			flipped[i] ^= 0xff
+		}
+		set(flipped)
+		o2, _ := mon.ParseObj(corpus.Cert, o.Name+"#sig=inverted", dc.Encode())
+		if o2 == nil || !bytes.Equal(o2.Cert.RawTBSCertificate, o.Cert.RawTBSCertificate) {
+			continue
+		}
+		cfg := g.GetConfiguration()
+		for _, pn := range names {
+			cl := g.CertificateLints().ByName(pn)
+			dep := g.ByName(pn)
+			if cl == nil || dep == nil {
+				continue
+			}
+			for which, run := range map[string]func(x *x509.Certificate) *lint.LintResult{
+				"CertificateLint.Execute": func(x *x509.Certificate) *lint.LintResult { return cl.Execute(x, cfg) },
+				"deprecated Lint.Execute": func(x *x509.Certificate) *lint.LintResult { return dep.Execute(x, cfg) },
+			} {
+				var a, b *lint.LintResult
+				func() {
+					defer func() { _ = recover() }()
+					a, b = run(o.Cert), run(o2.Cert)
+				}()
+				c.R.Count("evaluations", 2)
+				if a == nil || b == nil {
+					continue
+				}
+				c.R.Count("probe_direct_comparisons", 1)
+				if a.Status != b.Status || a.Details != b.Details {
+					c.V("sig-dependent|"+pn, fmt.Sprintf("%s of probe lint %s changes when only the signature bits change: %s %q vs %s %q (input %s)", which, pn, a.Status, clipS(a.Details, 160), b.Status, clipS(b.Details, 160), o.Name), pn, map[string][]byte{"orig": o.DER, "variant": o2.DER}, nil)
+				}
+				if pn == names[0] && a.Status == lint.Fatal {
+					c.R.Count("recovered_panic_reports_compared", 1)
+				}
+			}
+		}
+	}
 }
